@@ -133,4 +133,6 @@ def calibrator_state(cal):
         "params_samp": cal.params_samp, "losses_samp": cal.losses_samp, "series_samp": cal.series_samp,
         "batch_num_samp": cal.batch_num_samp, "method_samp": cal.method_samp,
         "random_generator": cal.random_generator, "scheduler": cal.scheduler, "loss_function": cal.loss_function,
+        # the table that gives the sampler labels their meaning (insertion order included)
+        "samplers_id_table": list(cal.samplers_id_table.items()),
     }
